@@ -32,7 +32,7 @@ func NewMemoryCache(size int) (*MemoryCache, error) {
 			return uint32(len(key) + l)
 		}).
 		DeletionListener(func(key string, value *cacheEntry, cause otter.DeletionCause) {
-			releaseEntry(value)
+			releaseEntry(key, value)
 		}).Build()
 	if err != nil {
 		return nil, err
@@ -120,8 +120,17 @@ func newCacheEntry() *cacheEntry {
 	return cacheEntryPool.Get().(*cacheEntry)
 }
 
-func releaseEntry(e *cacheEntry) {
+// releaseEntry is the deletion listener of the backend. The backend may
+// report one node more than once (an expired node that was looked up and
+// later replaced is reported as deleted and as replaced). Releasing an entry
+// twice would put it into the pool twice and two keys would share it. So
+// only release e if it still belongs to k.
+func releaseEntry(k string, e *cacheEntry) {
 	e.l.Lock()
+	if e.k != k { // already released, or reused for another key.
+		e.l.Unlock()
+		return
+	}
 	e.storedTime = time.Time{}
 	e.expireTime = time.Time{}
 	e.k = ""
